@@ -279,6 +279,39 @@ def r18_4(ctx):
         ctx.check(len(init) >= 1, "init-test-file:" + cmd, run.where(), "`scrut %s` initialises a per-document work directory" % cmd)
 
 
+def scrut_set_names(prog, repo):
+    """names of the environment variables scrut itself sets for every test case (code, not documentation)"""
+    f = prog.fn("TestFileEnvironment::build_env_vars")
+    o = Origins(f)
+    names = []
+    for bi, blk in enumerate(f.blocks):
+        for si, st in enumerate(blk["stmts"]):
+            if st["k"] == "assign" and st["rv"]["k"] == "agg" and st["rv"]["agg"] == "tuple" and len(st["rv"]["ops"]) == 2:
+                k = peel(o.operand(st["rv"]["ops"][0]))
+                for n in k.walk():
+                    if n.kind == "const" and n.a.as_str() is not None and re.match(r"^[A-Z_]+$", n.a.as_str()):
+                        names.append(n.a.as_str())
+    return sorted(set(names) | {"SHELL", "SCRUT_TEST"})
+
+
+def r18_6(ctx):
+    """`set afresh for every test case` versus the state carrier: the bash template sources the previous test case's dump of all
+    variables *after* the process was started with scrut's fresh environment, so a variable scrut sets is fresh only if the
+    dump excludes it (BASH_EXCLUDED_VARIABLES)"""
+    prog = ctx.prog
+    names = scrut_set_names(prog, ctx.repo)
+    excl = set(prog.const("BASH_EXCLUDED_VARIABLES").str_table() or [])
+    ctx.check(len(names) >= 12, "scrut-vars-found", "src/bin/utils/environment.rs", "%d variables set by scrut per test case: %s" % (len(names), names))
+    ctx.check("SCRUT_TEST" in excl, "fresh:SCRUT_TEST", "src/executors/bash_runner.rs", "SCRUT_TEST is excluded from the persisted state, so every test case sees its own <file>:<line>",
+              "SCRUT_TEST is persisted with the shell state: every test case after the first sees the first one's value")
+    stale = [n for n in names if n not in excl]
+    ctx.check(not stale, "fresh:" + "+".join(stale), "src/executors/bash_runner.rs",
+              "every variable scrut sets per test case is excluded from the persisted state",
+              "variables scrut sets `anew for each test case` (documentation, property C18) are dumped by the EXIT trap and re-imported by `source state` after scrut's "
+              "fresh environment was applied: once a test case changes %s the change overrides scrut's value in all later test cases of the document "
+              "(`export TESTDIR=/nope` in test 1 -> test 2 prints /nope)" % stale)
+
+
 def r18_5(ctx):
     from . import c12, c14
     c12.r12_1(ctx)
@@ -292,4 +325,5 @@ def run(ctx):
     ctx.run_rule("R18.2", "leak APIs only on the keep edge; no process::exit/abort; no panic=abort; main returns ExitCode [E-SITE]", r18_2, floor=5)
     ctx.run_rule("R18.3", "who-may-remove: no fs::remove_* in non-test code [E-SITE]", r18_3, floor=1)
     ctx.run_rule("R18.5", "the bash state file is written inside the owned per-document TempDir: the TempDir path reaches the template unmodified, in a double-quoted position (shared with C12 R12.1/R12.2) [E-FLOW]", r18_5, floor=8)
+    ctx.run_rule("R18.6", "scrut-set variables are fresh per test case only if the state dump excludes them (writer/reader agreement between build_env_vars and BASH_EXCLUDED_VARIABLES) [E-TABLE]", r18_6, floor=3)
     ctx.run_rule("R18.4", "environment table: documented variables == variables set (Cram extras on the cram_compat edge); SHELL, SCRUT_TEST=<file>:<line> per test case; applied in test/update/create [E-TABLE]", r18_4, floor=12)
